@@ -137,6 +137,12 @@ void harness(void)
 	g_loc_a0 = verif_nd_u64("loc_a");
 	g_loc_b0 = verif_nd_u64("loc_b");
 	g_size0 = verif_nd_u64("size");
+#ifdef BOUNDED_CHUNKS
+	/* bounded companion (no loop contract, plain unwinding): at most
+	 * BOUNDED_CHUNKS chunks; gives directly replayable counterexamples for
+	 * the named obligations */
+	VERIF_ASSUME(g_size0 <= (sqfs_u64)BOUNDED_CHUNKS * g_half);
+#endif
 	VERIF_ASSUME(g_loc_a0 <= UINT64_MAX - g_size0);
 	VERIF_ASSUME(g_loc_b0 <= UINT64_MAX - g_size0);
 
@@ -169,7 +175,11 @@ void harness(void)
 	/* an unequal witness byte can never end in "equal" */
 	VERIF_ASSERT(!(g_size0 > 0 && g_VA != g_VB && ret == 0), "C08.cmp.sound");
 
+#ifdef BOUNDED_CHUNKS
+	VERIF_COVER(ret == 0 && g_size0 > (BOUNDED_CHUNKS - 1) * g_half);
+#else
 	VERIF_COVER(ret == 0 && g_size0 > 3 * (sqfs_u64)SCR);
+#endif
 	VERIF_COVER(ret == 0 && g_size0 == 0);
 	VERIF_COVER(ret == 1);
 	VERIF_COVER(ret < 0);
